@@ -4,7 +4,7 @@
    rejected: `promised syms c P w` = w is over syms and satisfies P, resp. not P when c = false). *)
 From Coq Require Import List Arith Bool.
 From AV Require Import Base.Util Spec.Lang Spec.FA Spec.Preds Model.Decide Model.Product Model.Construct
-                       Proofs.Preds Proofs.Border Proofs.Construct.
+                       Proofs.Preds Proofs.Border Proofs.Construct Proofs.IsMinimal.
 Import ListNotations.
 
 (* ---- from_prefix: contains / complement, partial / complete ---- *)
@@ -129,6 +129,25 @@ Proof.
 Qed.
 Print Assumptions C15_nth_from_start.
 
+(* ---- nth_from_end: the 2^n-state shift register (and of_length for a one-symbol alphabet) ---- *)
+Theorem C15_nth_from_end : forall syms s n, NoDup syms ->
+  (n = 0 -> nth_from_end_m syms s n = Err ValueErr) /\
+  (0 < n -> ~ In s syms -> nth_from_end_m syms s n = Err (Invalid 2)) /\
+  (0 < n -> In s syms -> exists m, nth_from_end_m syms s n = Ok m) /\
+  (forall m, nth_from_end_m syms s n = Ok m ->
+     valid_dfa m = true /\ L_dfa m =L promised syms true (nth_from_end_is s n)).
+Proof.
+  intros syms s n Hnd. split; [|split; [|split]].
+  - apply nth_guard_refuses.
+  - apply nth_guard_refuses.
+  - apply nth_guard_ok.
+  - intros m Hm. split; [eapply nth_from_end_valid; eassumption|].
+    apply (promised_lang _ syms true _ (nth_endb s n)).
+    + intro w. apply nth_endb_spec.
+    + intro w. eapply nth_from_end_acc. exact Hm.
+Qed.
+Print Assumptions C15_nth_from_end.
+
 (* ---- universal_language / empty_language ---- *)
 Theorem C15_universal_empty : forall syms, NoDup syms ->
   valid_dfa (universal_m syms) = true /\ valid_dfa (empty_m syms) = true /\
@@ -140,6 +159,35 @@ Proof.
   - intro w. unfold L_dfa. rewrite empty_acc. discriminate.
 Qed.
 Print Assumptions C15_universal_empty.
+
+(* ---- minimality ----
+   is_minimal (executable; evaluated by the extracted code on every implementation result whose
+   docstring promises "the minimal DFA") is sound: full statement below.  Its proof needs the
+   Myhill-Nerode lower bound, which is theorem C05_nerode_lower_bound on branch `minim`
+   (coq/Props/P_C05.v) - not duplicated here.  What is proved here: the statement follows from
+   exactly that lower bound (nerode_lower_bound_statement is C05_nerode_lower_bound's statement,
+   verbatim); after the merge
+     Theorem C15_is_minimal_sound : C15_is_minimal_sound_statement.
+     Proof. exact (C15_is_minimal_sound_partial C05_nerode_lower_bound). Qed.              *)
+Definition C15_is_minimal_sound_statement : Prop :=
+  forall m, valid_dfa m = true -> is_minimal m = true ->
+    (forall m', valid_dfa m' = true -> complete m' -> d_syms m' = d_syms m -> L_dfa m' =L L_dfa m ->
+                size m <= size m') /\
+    (d_partial m = true ->
+     forall m', valid_dfa m' = true -> L_dfa m' =L L_dfa m -> size m <= size m').
+
+Theorem C15_is_minimal_sound_partial : nerode_lower_bound_statement -> C15_is_minimal_sound_statement.
+Proof. exact is_minimal_sound_of_lower_bound. Qed.
+Print Assumptions C15_is_minimal_sound_partial.
+
+(* the ingredients of the test mean what they say *)
+Theorem C15_is_minimal_ingredients : forall m p q, valid_dfa m = true -> In p (d_states m) -> In q (d_states m) ->
+  (distinguishable m p q = true -> exists w, dfa_acc_from m (Some p) w <> dfa_acc_from m (Some q) w) /\
+  (live m q = true -> exists w, dfa_acc_from m (Some q) w = true).
+Proof.
+  intros m p q Hv Hp Hq. split; [apply distinguishable_spec; assumption|apply live_spec; assumption].
+Qed.
+Print Assumptions C15_is_minimal_ingredients.
 
 (* non-vacuity: concrete instances, computed *)
 Example C15_example_prefix :
@@ -168,5 +216,18 @@ Example C15_example_numeric :
   (exists m, count_mod_m [0;1] 3 (Some [0;2]) None = Ok m /\ dfa_acc m [0;1;1;0;0] = true /\ dfa_acc m [0;1;1;0] = false) /\
   count_mod_m [0;1] 3 (Some [3]) None = Err (Invalid 1) /\
   (exists m, nth_from_start_m [0;1] 1 2 = Ok m /\ dfa_acc m [0;1;0] = true /\ dfa_acc m [1;0] = false /\ size m = 4) /\
-  (exists m, nth_from_start_m [5] 5 2 = Ok m /\ dfa_acc m [5;5;5] = true /\ dfa_acc m [5] = false /\ size m = 3).
+  (exists m, nth_from_start_m [5] 5 2 = Ok m /\ dfa_acc m [5;5;5] = true /\ dfa_acc m [5] = false /\ size m = 3) /\
+  (exists m, nth_from_end_m [0;1] 1 3 = Ok m /\ dfa_acc m [0;1;0;0] = true /\ dfa_acc m [1;0;1;1] = false /\
+             dfa_acc m [1;0] = false /\ size m = 8).
 Proof. vm_compute. repeat split; eexists; repeat split. Qed.
+
+Example C15_example_minimal :
+  is_minimal (from_substring_m [0;1] [0;0;1;0;0] true false) = true /\
+  is_minimal (from_suffix_m [0;1;2] [0;1;0] false) = true /\
+  is_minimal (from_prefix_m [0;1] [0;1] true true) = true /\      (* partial: no dead state *)
+  is_minimal (from_prefix_m [0;1] [0;1] true false) = true /\     (* complete: with the trap *)
+  is_minimal (from_prefix_m [0;1] [] true false) = false /\       (* unreachable error state *)
+  is_minimal (of_length_m [0;1] 2 (Some 1) None) = false /\       (* empty range: 3 states for the empty language *)
+  is_minimal (mkdfa [0;1] [0] [(0,[(0,1)]);(1,[(0,0)])] 0 [0;1] false) = false /\  (* two equivalent states *)
+  is_minimal (mkdfa [0;1] [0] [(0,[(0,1)]);(1,[])] 0 [0] true) = false.            (* partial with a dead state *)
+Proof. vm_compute. repeat split. Qed.
